@@ -41,6 +41,8 @@ class Dispatch:
     def algorithm_classes(self):
         out = {"MultiFunction": [], "Transformer": [], "DAGTraverser": []}
         for c in self.prog.all_classes():
+            if getattr(c.module, "path", "").startswith("<") or str(getattr(c, "qualname", "")).startswith("verif_"):
+                continue  # user-side classes of virtual modules (positive controls, model algorithm classes)
             names = [k.name for k in c.mro()]
             for base in out:
                 if base in names and c.name != base:
